@@ -1586,10 +1586,22 @@ impl Runner for ServiceRunner {
                     }
                 };
                 let d = if *dir == "i" { ConnectionDirection::Incoming } else { ConnectionDirection::Outgoing };
+                let stored_before = self.insts[&x].discv5.table_entries_enr().into_iter().find(|e| e.node_id() == enr.node_id());
                 let _ = self.insts[&x].hout.try_send(HandlerOut::Established(enr.clone(), a, d));
                 stats.bump("s.established");
                 let rm = if self.insts[&x].require_more(enr.udp6_socket().is_some()) { " rm=1" } else { "" };
                 let so = self.observe(x, false, false);
+                // C12: the record the handler reports is the one it checked against the source of the
+                // packets; if the report creates or changes the node's entry, that record is what is stored
+                let stored_after = self.insts[&x].discv5.table_entries_enr().into_iter().find(|e| e.node_id() == enr.node_id());
+                if let Some(after) = &stored_after {
+                    if stored_before.as_ref() != Some(after) && *after != enr {
+                        out.push(format!(
+                            "!MON C12 session-report-stored-another-record-than-the-one-reported id={} reported-seq={} stored-seq={} stored-addr={:?}",
+                            id8(&enr.node_id().raw()), enr.seq(), after.seq(), contactable_addr(mode, after)
+                        ));
+                    }
+                }
                 out.push(format!("!OP sest {} {} {} {}{}", x, rec_abs(&enr, f), sock_num(&a), dir, rm));
                 self.finish(x, "sest", Some(enr.node_id().raw()), so, None, out, stats);
             }
@@ -1740,7 +1752,22 @@ impl Runner for ServiceRunner {
                     ("nodes", [total, items]) => {
                         let Some(total) = parse_u64_tok(total) else { return noop(out) };
                         let nodes = self.items(x, k, items);
+                        let table_before = self.insts[&x].discv5.table_entries_enr();
                         let so = self.inject_nodes(x, k, from, total, nodes.clone(), false, out, stats);
+                        // C12: of two records of one node offered in one answer that differ in nothing but
+                        // the sequence number, both newer than the stored one, the older is never what stays
+                        for after in self.insts[&x].discv5.table_entries_enr() {
+                            let before = table_before.iter().find(|e| e.node_id() == after.node_id());
+                            if before == Some(&after) {
+                                continue;
+                            }
+                            let same_shape = |a: &Enr, b: &Enr| a.udp4_socket() == b.udp4_socket() && a.udp6_socket() == b.udp6_socket() && a.tcp4() == b.tcp4() && a.tcp6() == b.tcp6();
+                            if nodes.iter().any(|r| r.node_id() == after.node_id() && r.seq() > after.seq() && same_shape(r, &after))
+                                && nodes.iter().any(|r| *r == after)
+                            {
+                                out.push(format!("!MON C12 older-of-two-records-offered-in-one-answer-kept id={} stored-seq={}", id8(&after.node_id().raw()), after.seq()));
+                            }
+                        }
                         let sfx = self.query_suffix(x, &so);
                         let recs = if nodes.is_empty() { "-".to_string() } else { nodes.iter().map(|e| rec_abs(e, f)).collect::<Vec<_>>().join(",") };
                         out.push(format!("!OP {} nodes {} {}{}", head, total, recs, sfx));
